@@ -595,6 +595,82 @@ func TestC10Chan(t *testing.T) {
 	c.sample(map[string]any{"kind": "chan", "vals": []int{1, 2, 3}, "mode": "unbuffered-producer"})
 }
 
+// "channel values until close", one receive per iteration: the range statement receives exactly one value per iteration
+// and nothing ahead of demand, so after k iterations a pre-filled channel of n values still holds n-k values (observable
+// through len(ch), by another receiver, or after the loop is left early).
+func TestC10ChanDemand(t *testing.T) {
+	c := coll("C10")
+	c.rule("pre-filled buffered channels of n <= 8 values (closed or still open): after every advance of NewChanIter the channel's len must equal what it is after the same number of iterations of a native range; a second receiver taking values between two advances sees the same values as beside a native range; after leaving the loop early the rest is still in the channel")
+	var last *Replay
+	defer func() {
+		if last != nil {
+			violation(t, last)
+		}
+	}()
+	rapid.Check(t, func(rt *rapid.T) {
+		n := rapid.IntRange(0, 8).Draw(rt, "n")
+		closed := rapid.Bool().Draw(rt, "closed")
+		stopAfter := rapid.IntRange(0, n).Draw(rt, "stopAfter") // an open channel is never drained to the end (the range would block)
+		if closed && rapid.Bool().Draw(rt, "drain") {
+			stopAfter = n + 1
+		}
+		stealAt := rapid.IntRange(-1, n).Draw(rt, "stealAt") // iteration at which the body receives one more value itself
+		mk := func() chan int {
+			ch := make(chan int, n)
+			for i := 0; i < n; i++ {
+				ch <- 10 + i
+			}
+			if closed {
+				close(ch)
+			}
+			return ch
+		}
+		var want, got []string
+		// native
+		{
+			ch := mk()
+			k := 0
+			if stopAfter > 0 {
+				for v := range ch {
+					k++
+					want = append(want, fmt.Sprint("v", v, "len", len(ch)))
+					if k == stealAt && len(ch) > 0 {
+						want = append(want, fmt.Sprint("stolen", <-ch))
+					}
+					if k == stopAfter || (!closed && len(ch) == 0) {
+						break // (an open channel is never ranged past its last queued value: that would block)
+					}
+				}
+			}
+			want = append(want, fmt.Sprint("left", len(ch)))
+		}
+		{
+			ch := mk()
+			k := 0
+			if stopAfter > 0 {
+				for it := seq.NewChanIter((<-chan int)(ch)); it.MoveNext(); {
+					v := it.Current().Key
+					k++
+					got = append(got, fmt.Sprint("v", v, "len", len(ch)))
+					if k == stealAt && len(ch) > 0 {
+						got = append(got, fmt.Sprint("stolen", <-ch))
+					}
+					if k == stopAfter || (!closed && len(ch) == 0) {
+						break
+					}
+				}
+			}
+			got = append(got, fmt.Sprint("left", len(ch)))
+		}
+		c.eval(fmt.Sprint("chan-demand", n, closed, stopAfter, stealAt), n >= 2, "chan-demand")
+		if !reflect.DeepEqual(got, want) {
+			last = &Replay{Property: "C10", Kind: "chan-demand", Input: map[string]any{"n": n, "closed": closed, "stop_after": stopAfter, "steal_at": stealAt},
+				What: fmt.Sprintf("NewChanIter over a pre-filled channel (n=%d closed=%v stop after %d, extra receive at %d): got %v, native range %v", n, closed, stopAfter, stealAt, got, want)}
+			rt.Fatalf("%s", last.What)
+		}
+	})
+}
+
 // integer iterators over every integer type, including bounds that do not fit in an int: the loop is
 // left after a few iterations (a range over a huge bound is always left by break)
 func firstKeys[N interface {
